@@ -88,6 +88,7 @@ type storeBehaviour struct {
 	Events bool      `json:"events"`  // record after-events (C16); deliveries then go through message.StoreManager
 	Procs  bool      `json:"procs"`   // every mutating operation runs in a fresh child process (C10: restart between any two operations)
 	HoldMS int       `json:"hold_ms"` // every listener invocation takes this long (exposes overlapping dispatch)
+	Lite   bool      `json:"lite"`    // long histories: the whole-store snapshot is taken at the end only (the per-step events carry none)
 	Lua    bool      `json:"lua"`     // with events: the listener is a Lua script (after.message_stored / after.message_deleted) that reports through its logger
 	Ops    []storeOp `json:"ops"`
 }
@@ -345,6 +346,9 @@ func runStoreBehaviourHooked(w *tr.Writer, b storeBehaviour, seed int64, scratch
 		return fmt.Sprint(900000 + k)
 	}
 	snapInto := func(ev tr.Ev) {
+		if b.Lite && ev["a"] != "events" && ev["a"] != "reset" {
+			return
+		}
 		snap, serr := tr.Snapshot(st, b.Names)
 		ev["s"] = snap
 		if serr == nil {
@@ -507,6 +511,23 @@ func runStoreBehaviourHooked(w *tr.Writer, b storeBehaviour, seed int64, scratch
 			if err == nil {
 				issued[op.Mb] = append(issued[op.Mb], id)
 			}
+		case "wrapids":
+			// file store: the process-wide id counter is driven to the end of its range with deliveries to a scratch mailbox
+			// (purged again; it is no mailbox of the behaviour), so that the deliveries that follow get ids ...-9998, ...-9999,
+			// ...-0000: ids need not ascend in arrival order
+			scratchMb := "verif-wrap-scratch"
+			n := 0
+			for ; n < 10050; n++ {
+				id, err := st.AddMessage(&message.Delivery{Meta: mkMetaFixed(scratchMb), Reader: bytes.NewReader([]byte("Subject: x\r\n\r\nx\r\n"))})
+				if err != nil || strings.HasSuffix(id, "-9997") {
+					break
+				}
+				if n%500 == 499 {
+					_ = st.PurgeMessages(scratchMb)
+				}
+			}
+			_ = st.PurgeMessages(scratchMb)
+			ev["r"], ev["drawn"] = "ok", n
 		case "listfault":
 			// the mailbox is listed while the process cannot open any further file (RLIMIT_NOFILE = 0, as under descriptor
 			// exhaustion): an error is an answer, a wrong listing is not
